@@ -44,6 +44,7 @@ struct ConcCase {
   std::vector<std::vector<Op>> tasks;
   SchedConfig sched;
   int factory_yields = 1;
+  int factory_reenters = 0;        // the factory itself calls into cctz (see FactoryState::reenter)
   int nslots = 4;
 };
 
